@@ -1228,6 +1228,7 @@ func (x *Exec) step(st *State, b *ssa.BasicBlock, idx int, in ssa.Instruction) b
 	case *ssa.MakeChan:
 		obj := st.newObject()
 		st.storeLeaf("Bool", extendGhost(obj, 0), "false") // closed flag (ghost index 0 is reserved for it)
+		st.storeLeaf("Int", extendGhost(obj, 1), x.value(st, in.Size).L[0]) // capacity (ghost index 1): chancap(ch)
 		x.d.DeclareFun("roottype", []string{"Int"}, "Int")
 		if ct, ok := in.Type().Underlying().(*types.Chan); ok {
 			st.assume(fmt.Sprintf("(= (roottype %s) %d)", tRid(obj), 100000+x.prog.typeID(types.NewChan(types.SendRecv, ct.Elem()))))
